@@ -843,3 +843,87 @@ PROPS["C18"] = {
         "`step out` availability in the debugger (debugger/mod.rs:364-381) is not covered here",
     ],
 }
+
+
+# ---------------------------------------------------------------- C15 / C17 (source-level debugger sessions)
+def src_classify(rq, impl):
+    return impl.split(" ", 1)[0] if impl else "<empty>"
+
+
+def src_nontrivial(rq, impl):
+    # the session reached the debugger and printed something
+    return impl.startswith(("done", "exit")) and not impl.endswith("| -")
+
+
+PROPS["C15"] = {
+    "theorems": [
+        "Lace.C15.eval_eq_isa_abs",
+        "Lace.C15.eval_text_eq_spec",
+        "Lace.C15.eval_ld_label",
+        "Lace.C15.eval_st_label",
+        "Lace.C15.eval_pc_only_jumps_partial",
+        "Lace.C15.refused_noop",
+        "Lace.C15.eval_refusals_noop",
+        "Lace.C15.eval_never_ends_session_partial",
+    ],
+    "compare": cmp_default,
+    "classify": src_classify,
+    "nontrivial": src_nontrivial,
+    "group": lambda d: "eval",
+    "rule": ("debugger sessions on REAL assembly sources (labels, instructions, directives, random layouts, origins "
+             "0x0000..0xFDFF incl. >= 0x8000, programs with a .blkw of several hundred words so that labels are out "
+             "of reach): registers set up with `move`, then `goto a; eval <instr>; registers; print <label>` for a in "
+             "every statement address (and the sentinel HALT), every instruction form (register / immediate / "
+             "base+offset / label operand defined before and after a / JSR JSRR JMP RET / traps with and without "
+             "input / stack forms with the flag on), the off-limits ones (BR*, RTI, HALT, unknown vectors) and "
+             "malformed text (missing, surplus, wrong-kind operands, two instructions, directive text, out-of-range "
+             "immediates, unknown labels, token soup); plus a corpus (D17 at every address, D18). Compared three ways: "
+             "implementation vs Lean model (source assembled by the Lean assembler model, eval = eval_inner model) vs "
+             "specification (labels from the generator's abstract program, eval = Spec.execAbs): final machine, "
+             "memory diff, stdout, executed instructions, breakpoints, every stderr line (an eval diagnostic is "
+             "collapsed to <evalmsg>)."),
+    "trusted": [
+        "the generator's abstract program (label -> word index, origin) as the oracle for label addresses",
+        "text -> statement goes through the assembler's statement parser on both the model and the spec side",
+    ],
+    "assumptions": [
+        "literal PC offsets and the link value of JSR/JSRR/CALL are unspecified by the property: mirrored, few generated",
+        "eval getc / in at end of input exits 1 exactly as the VM does (I3); treated as in scope of 'as the VM would'",
+        "a label operand farther from the PC than the instruction's field reaches is refused with a diagnostic",
+    ],
+}
+
+PROPS["C17"] = {
+    "theorems": [
+        "Lace.C17.span_starts_at_statement_token",
+        "Lace.C17.span_text_eq_statement_partial",
+        "Lace.C17.no_statement_no_text",
+        "Lace.C17.statement_text",
+        "Lace.C17.label_resolves",
+        "Lace.C17.label_out_of_range",
+        "Lace.C17.unknown_label",
+    ],
+    "compare": cmp_default,
+    "classify": src_classify,
+    "nontrivial": src_nontrivial,
+    "group": lambda d: "view",
+    "rule": ("programs from an abstract program rendered under a wild layout (operand-less instructions after "
+             "operand-ful ones, several statements per line, .stringz/.blkw/.fill, labels with and without colon, "
+             "commas / colons / CR / FF and comments between operands, multi-byte characters in comments and strings, "
+             "origins incl. >= 0x8000 and user space ending inside the program, .break and .orig interleaved, a "
+             "statement token at byte 0 of the file, text after .end): `assembly a` for EVERY a in [orig-2, orig+n+2] "
+             "(observed byte for byte between echo markers), and for every label `print l`, `print l+-k`, "
+             "`assembly l`, `break add l+-k`, `goto l+-k`, `assembly ^0`, `break add ^0`, a case-variant name, then "
+             "`break list`, `registers`. Three-way: implementation vs model (spans from the Lean assembler model, "
+             "text sliced from the source) vs the generator's own per-statement text, label table, origin and .break "
+             "positions (renderStatement oracle)."),
+    "trusted": [
+        "the generator records what it wrote per statement (text, word count) while rendering; word counts of "
+        ".stringz use an independent unescape",
+    ],
+    "assumptions": [
+        "labels are used as locations only when the command grammar can name them (I14): `b+1`, `o-3`, `x+2` are integers",
+        "no comment between a data directive and its operand (the preprocessor does not skip comments there)",
+        "ESC characters in statement text are not generated (minimal mode strips ANSI sequences)",
+    ],
+}
